@@ -30,11 +30,16 @@
      MSetKey v    as MEcho; executed on the front it first stores v as the session's routing key
      MFail        completes with an error          MBoom     panics before completing
      MNever       returns without ever completing  MNote     notify-shaped method (no completion)
-     MNoMethod / MNoGroup   no such method / group MBadPayload  existing method, undecodable JSON *)
+     MNoMethod / MNoGroup   no such method / group MBadPayload  existing method, undecodable JSON
+     MUnenc       completes successfully with a result the client serializer cannot encode (e.g. a
+                  float +Inf under JSON): the encoding error is the answer - on the front
+                  (handler.go Process) and, REPAIRED (hooks/C02-fix-forwarded-marshal-error.patch),
+                  on a back-end (ProcessForwardMsg ignored the error and relayed an empty success) *)
 From Cell2V Require Import Common.Tac Common.ListX Common.AList.
 
 Inductive meth :=
-| MEcho | MSetKey (v : Z) | MFail | MBoom | MNever | MNote | MNoMethod | MNoGroup | MBadPayload.
+| MEcho | MSetKey (v : Z) | MFail | MBoom | MNever | MNote | MNoMethod | MNoGroup | MBadPayload
+| MUnenc.
 
 Inductive route :=
 | RT (ty : Z) (m : meth)        (* well-formed  type.group.method *)
@@ -66,13 +71,13 @@ Definition completes (m : meth) : completion :=
   match m with
   | MEcho | MSetKey _ => CReply
   | MNever => CSilent
-  | MFail | MBoom | MNote | MNoMethod | MNoGroup | MBadPayload => CErr
+  | MFail | MBoom | MNote | MNoMethod | MNoGroup | MBadPayload | MUnenc => CErr
   end.
 
 (* is the user's handler function entered? ([isreq]: the call carries a completion) *)
 Definition invoked (m : meth) (isreq : bool) : bool :=
   match m with
-  | MEcho | MSetKey _ | MFail | MBoom | MNever => true
+  | MEcho | MSetKey _ | MFail | MBoom | MNever | MUnenc => true
   | MNote => negb isreq        (* request to a notify-shaped method: refused before the call *)
   | MNoMethod | MNoGroup | MBadPayload => false
   end.
